@@ -9,8 +9,19 @@ import shutil
 import tempfile
 from pathlib import Path
 
-HEADER = '''from inline_snapshot import snapshot
+HEADER = '''from inline_snapshot import snapshot, outsource
 import enum
+
+
+class Thing:
+    # its repr is no Python code: recorded as HasRepr(...), which needs an import - like the outsourced value below
+    def __repr__(self):
+        return "<Thing at home>"
+
+    def __eq__(self, other):
+        if not isinstance(other, Thing):
+            return NotImplemented
+        return True
 
 
 class Color(enum.Enum):
@@ -79,6 +90,8 @@ def module_text(variant: int):
         out.append("def test_%d():\n    assert %s == snapshot()\n\n\n" % (k, v[1 + variant]))
     for k, v in enumerate(FIXES, len(VALUES)):
         out.append("def test_%d():\n    assert %s == snapshot(%s)\n\n\n" % (k, v[1 + variant], v[3]))
+    # two kinds of generated code that need an added import each (the order of the added lines is part of the text)
+    out.append("def test_imports():\n    assert Thing() == snapshot()\n    assert outsource('some text') == snapshot()\n")
     return "".join(out)
 
 
@@ -112,8 +125,9 @@ def run_one(args):
             args_ = inline_driver.snapshot_args(text)
         except SyntaxError as e:
             return {"key": [variant, hashseed, fmt], "error": "syntax: %s" % e, "args": None}
+        imports = " | ".join(l for l in text.splitlines() if l.startswith(("from inline_snapshot import", "import inline_snapshot")))
         return {"key": [variant, hashseed, fmt], "error": None if r["rc"] in (0, 1) else "rc=%s %s" % (r["rc"], r["stdout"][-300:]),
-                "args": [a[2] for a in args_]}
+                "args": [a[2] for a in args_][:NV], "imports": imports}
     finally:
         shutil.rmtree(d, ignore_errors=True)
 
@@ -123,12 +137,19 @@ def judge(results):
     mism = []
     by_fmt = {}
     for r in results:
-        if r["error"] or r["args"] is None or len(r["args"]) != NV:
+        if r["error"] or r["args"] is None or len(r["args"]) < NV:
             mism.append({"clause": "session", "props": ["C16", "C18"], "detail": {"key": r["key"], "error": r["error"]}})
             continue
         by_fmt.setdefault(r["key"][2], []).append(r)
     ref = {}
     for fmt, rs in by_fmt.items():
+        texts = {}
+        for r in rs:
+            texts.setdefault(r.get("imports"), []).append(r["key"][:2])
+        if len(texts) != 1:
+            mism.append({"clause": "hash-seed", "props": ["C16"],
+                         "detail": {"value": "the import lines added for generated code", "class": "imports", "formatter": fmt,
+                                    "texts": {t: ks[:4] for t, ks in list(texts.items())[:4]}}})
         for k in range(NV):
             v = (value_of(k)[0], value_of(k)[1])
             texts = {}
